@@ -24,3 +24,49 @@ package middlewares
 //@     invariant -1 <= $i && $i < len(roles)
 //@     invariant forall k int :: 0 <= k && k <= $i ==> roles[k] != "admin"
 //@     decreases len(roles) - $i
+
+// ---------------------------------------------------------------------------
+// C16: token validation: a token is accepted only if it parsed and verified, is Valid, carries an accepted
+// audience and an accepted issuer and was signed with RS256
+
+//@ spec verAud(claims int, aud string) bool
+//@ spec verIss(claims int, iss string) bool
+//@ spec algOf(m iface) string
+
+//@ assumed jwt.ParseWithClaims
+//@   modifies jwt.Token.*
+//@   ensures ret1 == nil ==> ret0 != nil && foreign(ret0) && typeof(ret0.Claims) == typeid("*security.CustomClaims") && cast(ret0.Claims, "*security.CustomClaims") != nil
+//@ assumed (*jwt.RegisteredClaims).VerifyAudience
+//@   pure
+//@   ensures result == verAud(c, cmp)
+//@ assumed (*jwt.RegisteredClaims).VerifyIssuer
+//@   pure
+//@   ensures result == verIss(c, cmp)
+//@ assumed (jwt.SigningMethod).Alg
+//@   pure
+//@   ensures result == algOf(recv)
+
+//@ unit (*JwtConfig).ValidateToken
+//@   prop C16
+//@   ghost audG []string
+//@   ghost issG []string
+//@   ghost claimsG int
+//@   requires config != nil && ErrJWTInvalid != nil
+//@   ensures [accepted-token-is-valid] ret1 == nil ==> ret0 != nil && ret0.Valid
+//@   ensures [accepted-token-has-accepted-audience] ret1 == nil ==> (exists i int :: 0 <= i && i < len(audG) && verAud(claimsG, audG[i]))
+//@   ensures [accepted-token-has-accepted-issuer] ret1 == nil ==> (exists i int :: 0 <= i && i < len(issG) && verIss(claimsG, issG[i]))
+//@   ensures [accepted-token-is-rs256] ret1 == nil ==> algOf(ret0.Method) == "RS256"
+//@   safe typeassert
+//@   at call append#1
+//@     ghost audG := audience
+//@     ghost claimsG := addrOf(claims.RegisteredClaims)
+//@     assert [audiences-are-the-configured-ones] len(audience) == len(config.Audience) + len(config.NodeAudience)
+//@   at call append#2
+//@     ghost issG := issuer
+//@     assert [issuers-are-the-configured-ones] len(issuer) == len(config.Issuer) + len(config.NodeIssuer)
+//@   loop 1
+//@     invariant -1 <= $i && $i < len(audience)
+//@     invariant checkAud <==> (exists k int :: 0 <= k && k <= $i && verAud(claimsG, audience[k]))
+//@   loop 2
+//@     invariant -1 <= $i && $i < len(issuer)
+//@     invariant checkIss <==> (exists k int :: 0 <= k && k <= $i && verIss(claimsG, issuer[k]))
